@@ -269,18 +269,21 @@ contract(
     params={"value": Str, "token": TOKEN},
     # what the lexer's string scanners guarantee: every backslash that starts an escape has a successor
     pre=["scannable(value, 0)"],
-    locals_={"unescaped": "join"},
+    # role-based names (recomputed from the AST): `out` = the list the decoded pieces are appended to,
+    # `pos` = the scanning position of the while loop
+    aliases={"out": "empty-list-local", "pos": "while-var"},
+    locals_={"out": "join"},
     loops={0: {
         "lemmas_init": ["dec_empty(value)"],
-        "inv": ["0 <= index and index <= len(value)",
-                "joined(unescaped) == dec_prefix(value, index)",
-                "scannable(value, index)"],
-        "lemmas_head": ["scannable_unfold(value, index)", "dec_empty(value)"],
-        "hints_end": ["joined(unescaped)[:len(pre_unescaped)] == pre_unescaped",
-                      "is_unit_at(value, pre_index, index, joined(unescaped)[len(pre_unescaped):])"],
-        "lemmas_end": ["dec_step(value, pre_index, index, joined(unescaped)[len(pre_unescaped):])"],
+        "inv": ["0 <= pos and pos <= len(value)",
+                "joined(out) == dec_prefix(value, pos)",
+                "scannable(value, pos)"],
+        "lemmas_head": ["scannable_unfold(value, pos)", "dec_empty(value)"],
+        "hints_end": ["joined(out)[:len(pre_out)] == pre_out",
+                      "is_unit_at(value, pre_pos, pos, joined(out)[len(pre_out):])"],
+        "lemmas_end": ["dec_step(value, pre_pos, pos, joined(out)[len(pre_out):])"],
         "lemmas_exit": ["dec_empty(value)"],
-        "dec": "len(value) - index",
+        "dec": "len(value) - pos",
     }},
     post=["result == dec(value)"],   # exactly the denoted string
     raises={"LiquidSyntaxError": None},
